@@ -2,16 +2,17 @@ SPECIFICATION Spec
 CONSTANTS
   Times = {0, 1}
   Prices = {1, 2}
-  Qtys = {1, 2, 3}
+  Qtys = {0, 1, 3}
+  NegQtys = {2}
   BalInit = {0, 300, 600}
   FeePcts = {0, 50}
   Lats = {3}
   Sinces = {0, 1, 2, 3}
-  OpenCids = {"o1"}
+  OpenCids = {"o1", "o3"}
   MaxTrades = 2
   ClockSlack = FALSE
   IdSlack = 0
 INVARIANT Inv
-PROPERTIES AcceptIff ExactDebit RejectPure FreshIdsStep OneFill Notif11 QueriesReflect ConfigFixed Clock
+PROPERTIES AcceptIff ExactDebit RejectPure FreshIdsStep OneFill Notif11 QueriesReflect ConfigFixed Clock OfflineStep
 VIEW View
 CHECK_DEADLOCK FALSE
